@@ -88,6 +88,14 @@ def scenario(seed, d, n, n_particles, cluster_every, it, n_max_clusters, normali
     st = fill_state(d, u2, 0.5, it)
     if weights_kind == "uniform":
         w = np.full(len(u2), 1.0 / len(u2))
+    elif isinstance(weights_kind, str) and weights_kind.startswith("tail:"):
+        # one cluster keeps only 0.3 % of the total weight, spread over its particles: they are trimmed out of the training pool
+        # but still resampled from the whole pool (systematic resampling of 1024 particles guarantees a copy)
+        k = int(weights_kind.split(":")[1])
+        w = np.where(ks == k, 0.0, 1.0)
+        m = max(int((ks == k).sum()), 1)
+        w = np.where(ks == k, 0.003 * w.sum() / (0.997 * m), w)
+        w = w / w.sum()
     else:       # one mode carries almost all the weight: the others are trimmed out of the training pool
         w = np.where(ks == 0, 1.0, 1e-12)
         w = w / w.sum()
@@ -140,6 +148,66 @@ def scenario(seed, d, n, n_particles, cluster_every, it, n_max_clusters, normali
     return None, what
 
 
+def whole_runs():
+    """Whole seeded Sampler runs — plain, checkpointed, and resumed into a fresh sampler — with the kernel call observed: at every
+    call of the mutation kernel each particle's label must be the label the (one) clustering model gives its position, must index an
+    existing well-formed mode, and the Trainer and the Resampler must be consulting the same model."""
+    import os, tempfile, shutil
+    import tempest
+    import tempest.steps.mutate as mut
+    tmp = tempfile.mkdtemp(prefix="c14_")
+    real = mut.parallel_mcmc
+    found = []
+
+    def make(out, **kw):
+        # two sharp, well separated modes and 256 particles: the hierarchical model then really finds K = 2 in the later iterations
+        return tempest.Sampler(lambda u: 10 * u - 5, lambda x: float(np.logaddexp(-0.5 * np.sum((x - 3.0) ** 2) / 0.02, -0.5 * np.sum((x + 3.0) ** 2) / 0.02)),
+                               n_dim=2, n_particles=256, random_state=5, clustering=True, output_dir=out, **kw)
+
+    def spy_for(s, tag):
+        def spy(**kw):
+            if not found:
+                a, u, ms = np.asarray(kw["assignments"]), np.asarray(kw["u"]), kw["mode_stats"]
+                tr, rs = s._core.trainer.clusterer, s._core.resampler.clusterer
+                if (a < 0).any() or (a >= ms.K).any():
+                    found.append(f"{tag}: assignment {int(a.max())} does not index a mode (K_modes={ms.K})")
+                elif tr is not None and getattr(tr, "n_clusters_", 0) and ms.K > 1:
+                    for nm, model in (("the Trainer's", tr), ("the Resampler's", rs)):
+                        pred = model.predict(u)
+                        if not np.array_equal(pred, a):
+                            found.append(f"{tag}: {int((pred != a).sum())} of {len(a)} particles carry a label that {nm} clustering model does not give "
+                                         f"their position (K_modes={ms.K}, Trainer K={tr.n_clusters_}, Resampler K={getattr(rs, 'n_clusters_', None)})")
+                            break
+            return real(**kw)
+        return spy
+    cwd = os.getcwd()
+    os.chdir(tmp)
+    try:
+        for ce, rsm in ((1, "mult"), (2, "syst"), (3, "mult")):
+            d = os.path.join(tmp, f"run{ce}{rsm}")
+            s = make(d, cluster_every=ce, resample=rsm)
+            mut.parallel_mcmc = spy_for(s, f"run(cluster_every={ce}, resample={rsm})")
+            s.run(n_total=768, progress=False, save_every=2)
+            if found:
+                return found[0], {"scenario": "whole run", "cluster_every": ce, "resample": rsm}
+            cks = sorted((f for f in os.listdir(d) if f.endswith(".state") and "final" not in f), key=lambda f: int(f.split("_")[1].split(".")[0]))
+            if not cks:
+                continue
+            mid = os.path.join(d, cks[-2] if len(cks) > 1 else cks[-1])     # a late checkpoint: the model already has K = 2
+            s2 = make(os.path.join(tmp, f"res{ce}{rsm}"), cluster_every=ce, resample=rsm)
+            mut.parallel_mcmc = spy_for(s2, f"resumed from {os.path.basename(mid)} (cluster_every={ce}, resample={rsm})")
+            s2.run(n_total=1024, progress=False, resume_state_path=mid)
+            if found:
+                return found[0], {"scenario": "resumed run", "cluster_every": ce, "resample": rsm, "checkpoint": os.path.basename(mid)}
+    except Exception as e:
+        return f"whole run raised {type(e).__name__}: {e}", {"scenario": "whole run"}
+    finally:
+        mut.parallel_mcmc = real
+        os.chdir(cwd)
+        shutil.rmtree(tmp, ignore_errors=True)
+    return None, None
+
+
 def main():
     p = json.load(open(sys.argv[1]))
     tried = 0
@@ -179,12 +247,21 @@ def main():
                                   dict(centers=four, spread=0.03, frac=frac), "uniform"))
         cases.append((seed, 2, 400, 32, 2, 3, None, "nearest-centre", dict(centers=four, spread=0.03, frac=[1] * 4),
                       dict(centers=four, spread=0.03, frac=[1] * 4), "skewed"))
+        for k in range(4):
+            for ce, it in ((2, 3), (1, 3)):
+                cases.append((seed, 2, 600, 1024, ce, it, None, "nearest-centre", dict(centers=four, spread=0.03, frac=[1] * 4),
+                              dict(centers=four, spread=0.03, frac=[1] * 4), f"tail:{k}"))
     for c in cases:
         tried += 1
         r, what = scenario(*c)
         if r:
             print(json.dumps({"reproduced": True, "tried": tried, "detail": r, "input": what}, default=str))
             return
+    r, what = whole_runs()
+    tried += 6
+    if r:
+        print(json.dumps({"reproduced": True, "tried": tried, "detail": r, "input": what}, default=str))
+        return
     print(json.dumps({"reproduced": False, "tried": tried, "detail": "no failing pool/cadence in the directed search"}))
 
 
